@@ -338,6 +338,20 @@ def gen_eq_rows(rng, feed):
         a, b = flows(rng), flows(rng)
     return a, b
 
+def eq_extras(rng, c, feed, first_row):
+    """equilibrium stub mode and the state of a reused multi_stream"""
+    # 'rel': the stub splits whatever material the working stream holds (a conserving equilibrium), with the split that
+    # gives the rows above when it holds exactly the feed; 'abs': it writes the rows above
+    conserving = all(F(a) + F(b) == F(f) for a, b, f in zip(first_row, c['l'], feed))
+    exact_split = all(f != 0 or a == 0 for a, f in zip(first_row, feed))
+    c['eq_mode'] = 'rel' if (conserving and exact_split and rng.random() < 0.7) else 'abs'
+    c['split'] = [fl(F(a) / F(f)) if f else 0. for a, f in zip(first_row, feed)]
+    if c['eq_mode'] == 'rel' and any(F(s_) * F(f) != F(a) for s_, f, a in zip(c['split'], feed, first_row)):
+        c['eq_mode'] = 'abs'        # the split is not a dyadic number
+    c['ms0'] = None
+    if c['ms'] and rng.random() < 0.65:     # the caller's multi_stream was used before: it still holds flows
+        c['ms0'] = {p: (flows(rng) if rng.random() < 0.8 else [0.] * N) for p in c['ms']}
+
 def gen_lle(rng):
     for _ in range(100):
         feed = flows(rng, nz=rng.randint(2, N))
@@ -350,20 +364,24 @@ def gen_lle(rng):
         eff = rng.choice(EFFS)
         if rng.random() < 0.06:
             eff = rng.choice([F(3, 2), F(-1, 2)])
-        ms = rng.choice([None, None, 'lL', 'lL', 'gl', 'Lls'])
+        ms = rng.choice([None, None, 'lL', 'lL', 'lL', 'gl', 'Lls'])
         # a feed phase that the multi_stream lacks fails inside MultiStream.copy_like (DESIGN section 5 #22, property C13)
         feed_phase = 'l' if ms else rng.choice(['l', 'l', 'g', 'L'])
-        return {'fn': 'lle', 'feed': feed, 'feed_phase': feed_phase, 'L': L, 'l': l,
-                'top_chemical': rng.choice([None, None, 'A_', 'Water']), 'eff': fl(eff), 'ms': ms,
-                'top0': maybe_empty(rng), 'bot0': maybe_empty(rng)}
+        c = {'fn': 'lle', 'feed': feed, 'feed_phase': feed_phase, 'L': L, 'l': l,
+             'top_chemical': rng.choice([None, None, 'A_', 'Water']), 'eff': fl(eff), 'ms': ms,
+             'top0': maybe_empty(rng), 'bot0': maybe_empty(rng)}
+        eq_extras(rng, c, feed, L)
+        return c
     raise RuntimeError('gen_lle')
 
 def gen_vle(rng):
     feed = flows(rng, nz=rng.randint(1, N))
     g, l = gen_eq_rows(rng, feed)
-    return {'fn': 'vle', 'feed': feed, 'feed_phase': rng.choice(['l', 'g']), 'g': g, 'l': l,
-            'ms': rng.choice([None, None, 'lg']), 'top0': maybe_empty(rng), 'bot0': maybe_empty(rng),
-            'spec': rng.choice([{'V': 0.5, 'P': 101325.}, {'T': 320., 'P': 101325.}, {'P': 101325., 'Q': 0.}])}
+    c = {'fn': 'vle', 'feed': feed, 'feed_phase': rng.choice(['l', 'g']), 'g': g, 'l': l,
+         'ms': rng.choice([None, 'lg', 'lg']), 'top0': maybe_empty(rng), 'bot0': maybe_empty(rng),
+         'spec': rng.choice([{'V': 0.5, 'P': 101325.}, {'T': 320., 'P': 101325.}, {'P': 101325., 'Q': 0.}])}
+    eq_extras(rng, c, feed, g)
+    return c
 
 def gen_phase_split(rng):
     r = rng.random()
@@ -375,8 +393,42 @@ def gen_phase_split(rng):
         phases = ''.join(sorted(rng.sample('glsL', rng.randint(2, 4))))
         rows = [flows(rng) if rng.random() < 0.85 else [0.] * N for _ in phases]
         multi = True
-    nout = len(phases) if rng.random() < 0.8 else rng.choice([1, 2, 3, 4, 5])
-    return {'fn': 'phase_split', 'phases': phases, 'rows': rows, 'multi': multi,
+    hist = []
+    final = phases
+    if multi and rng.random() < 0.7:
+        # history of the feed object before the split: per-phase views taken, an earlier split, flows rewritten, phases changed
+        cur = {p: list(r) for p, r in zip(phases, rows)}
+        for _ in range(rng.randint(1, 5)):
+            kind = rng.choice(['view', 'view', 'split', 'set', 'set', 'phases', 'phases', 'phases'])
+            if kind == 'view':
+                hist.append(['view', rng.choice(sorted(cur))])
+            elif kind == 'split':
+                hist.append(['split'])
+            elif kind == 'set':
+                p = rng.choice(sorted(cur)); v = flows(rng) if rng.random() < 0.85 else [0.] * N
+                cur[p] = v; hist.append(['set', p, v])
+            else:
+                absent = [p for p in 'Lgls' if p not in cur]
+                r2 = rng.random()
+                if absent and (r2 < 0.5 or len(cur) == 2):
+                    new = dict(cur); new[rng.choice(absent)] = [0.] * N            # add a phase
+                elif len(cur) > 2:
+                    drop = rng.choice(sorted(cur))
+                    new = {p: v for p, v in cur.items() if p != drop}
+                    if any(cur[drop]):
+                        other = {'l': 'L', 'L': 'l'}.get(drop)
+                        if other in new:
+                            new[other] = [fl(F(a) + F(b)) for a, b in zip(new[other], cur[drop])]
+                        elif rng.random() < 0.8:
+                            continue                                            # would raise UndefinedPhase; mostly avoided
+                        else:
+                            hist.append(['phases', ''.join(sorted(new))]); break
+                else:
+                    continue
+                cur = new; hist.append(['phases', ''.join(sorted(cur))])
+        final = ''.join(sorted(cur))
+    nout = len(final) if rng.random() < 0.8 else rng.choice([1, 2, 3, 4, 5])
+    return {'fn': 'phase_split', 'phases': phases, 'rows': rows, 'multi': multi, 'hist': hist,
             'outs0': [maybe_empty(rng) for _ in range(nout)]}
 
 def gen_splits(rng):
@@ -604,7 +656,14 @@ class EqStub:
         rows = self.rows
         seen = self.seen = []
         def call(obj, *a, **k):
-            seen.append([list(map(str, obj._imol.phases)), np.asarray(obj._imol.data.to_array(), float).tolist()])
+            data = np.asarray(obj._imol.data.to_array(), float)
+            seen.append([list(map(str, obj._imol.phases)), data.tolist()])
+            if callable(rows):
+                first, second, pa, pb = rows(data.sum(0))
+                for p in obj._imol.phases:
+                    obj._imol[p] = 0.
+                obj._imol[pa] = first; obj._imol[pb] = second
+                return
             for p, r in rows.items():
                 obj._imol[p] = np.array(r, float)
         self.klass.__call__ = call
@@ -630,6 +689,22 @@ class SolveRecorder:
         return self
     def __exit__(self, *a):
         np.linalg.solve, np.linalg.lstsq = self.real_solve, self.real_lstsq
+
+def eq_table(case, pa, pb):
+    """what the stubbed equilibrium call does"""
+    if case.get('eq_mode') == 'rel':
+        s_ = np.array(case['split'], float)
+        return lambda total: (s_ * total, total - s_ * total, pa, pb)
+    return {pa: case[pa], pb: case[pb]}
+
+def build_ms(case):
+    tmo = env()['tmo']
+    if not case['ms']:
+        return None
+    ms = tmo.MultiStream(None, phases=case['ms'])
+    for p, r in (case.get('ms0') or {}).items():
+        ms.imol[p] = np.array(r, float)
+    return ms
 
 def call_partition(case, feed, top, bot):
     S = env()['tmo'].separations
@@ -677,18 +752,19 @@ def run_impl(case):
     if fn == 'lle':
         feed = mkstream(case['feed'], case['feed_phase'])
         top = mkstream(case['top0']); bot = mkstream(case['bot0'])
-        ms = tmo.MultiStream(None, phases=case['ms']) if case['ms'] else None
-        with EqStub('LLE', {'L': case['L'], 'l': case['l']}) as st:
+        ms = build_ms(case)
+        with EqStub('LLE', eq_table(case, 'L', 'l')) as st:
             c = Catch().run(lambda: S.lle(feed, top, bot, case['top_chemical'], case['eff'], ms))
         out = {'top': arr(top), 'bot': arr(bot), 'err': c.err, 'feed_after': arr(feed), 'seen': st.seen}
         if ms is not None and c.err is None:
             out['ms'] = [row(ms, 'L'), row(ms, 'l')]
+            out['ms_total'] = arr(ms)
         return out
     if fn == 'vle':
         feed = mkstream(case['feed'], case['feed_phase'])
         top = mkstream(case['top0']); bot = mkstream(case['bot0'])
-        ms = tmo.MultiStream(None, phases=case['ms']) if case['ms'] else None
-        with EqStub('VLE', {'g': case['g'], 'l': case['l']}) as st:
+        ms = build_ms(case)
+        with EqStub('VLE', eq_table(case, 'g', 'l')) as st:
             c = Catch().run(lambda: S.vle(feed, top, bot, multi_stream=ms, **case['spec']))
         return {'top': arr(top), 'bot': arr(bot), 'err': c.err, 'feed_after': arr(feed), 'seen': st.seen,
                 'phases': [str(top.phase), str(bot.phase)]}
@@ -696,6 +772,19 @@ def run_impl(case):
         feed = mkmulti(case['phases'], case['rows']) if case['multi'] else mkstream(case['rows'][0], case['phases'])
         order = [str(p) for p in feed.phases]
         rows_in_order = [row(feed, p) for p in order] if case['multi'] else [arr(feed)]
+        held = []
+        for op in case.get('hist', []):
+            def do(op=op):
+                if op[0] == 'view': held.append(feed[op[1]])
+                elif op[0] == 'set': feed.imol[op[1]] = np.array(op[2], float)
+                elif op[0] == 'phases': feed.phases = op[1]
+                else: S.phase_split(feed, [mkstream([0.] * N) for _ in feed.phases])
+            c = Catch().run(do)
+            if c.err:
+                return {'order': order, 'rows': rows_in_order, 'outs': case['outs0'], 'err': c.err, 'hist_err': True,
+                        'out_phases': []}
+        order = [str(p) for p in feed.phases]
+        rows_in_order = [row(feed, p) for p in order] if case['multi'] else [arr(feed)]     # read through feed.imol
         outs = [mkstream(v) for v in case['outs0']]
         c = Catch().run(lambda: S.phase_split(feed, outs))
         return {'order': order, 'rows': rows_in_order, 'outs': [arr(o) for o in outs], 'err': c.err,
@@ -759,6 +848,32 @@ def root_of(rr):
     """the oracle value: what the numeric stage returned; a sentinel the model must never use otherwise"""
     return q(rr[0]['ret']) if rr and rr[0]['numeric'] else '(-7)'
 
+def eq_term(case, first):
+    if case.get('eq_mode') == 'rel':
+        return f'(eq_rel {cnat(N)} {qlist(case["split"])})'
+    return f'(eq_abs {qlist(case[first])} {qlist(case["l"])})'
+
+def ms_model(case, out, feed_phase):
+    """rows the working stream held before (in the phase order the equilibrium call saw), index of the feed's phase,
+    and the comparison of what the equilibrium call saw with the model's rows"""
+    if not out['seen']:
+        return '[]', 0, 'false'
+    phases, rows = out['seen'][0]
+    ms0 = [(case.get('ms0') or {}).get(p, [0.] * N) for p in phases]
+    k = phases.index(feed_phase)
+    seen_ok = (f'vlist_approxb (ms_after_copy {clist(ms0, qlist)} {cnat(k)} {qlist(case["feed"])}) {clist(rows, qlist)}')
+    return clist(ms0, qlist), k, seen_ok
+
+PHCODE = {'L': 0, 'g': 1, 'l': 2, 's': 3}
+def present_list(phases):
+    return clist([p in phases for p in 'Lgls'], cbool)
+
+def mop_term(op):
+    if op[0] == 'view': return f'(MView {cnat(PHCODE[op[1]])})'
+    if op[0] == 'set': return f'(MSet {cnat(PHCODE[op[1]])} {qlist(op[2])})'
+    if op[0] == 'phases': return f'(MPhases {present_list(op[1])})'
+    return 'MSplit'
+
 def coq_case(case, out):
     fn = case['fn']
     if fn == 'clip':
@@ -812,17 +927,19 @@ def coq_case(case, out):
     if fn == 'lle':
         extra = 0 if not case['ms'] else len(set(case['ms']) - set('lL'))
         ms_ok = 'ms' not in out or out['ms'] == [case['L'], case['l']]
-        saw_feed = bool(out['seen']) and [sum(c) for c in zip(*out['seen'][0][1])] == case['feed']
-        return (f'(eqres_eqb (lle_wrap (rho_stub {qlist(MWS)} {qlist([F(m) / F(r) for m, r in zip(MWS, RHOS)])}) '
-                f'(fun _ => ({qlist(case["L"])}, {qlist(case["l"])})) {cnat(extra)} {qlist(case["feed"])} '
+        ms0, k, seen_ok = ms_model(case, out, 'L' if case['feed_phase'] == 'L' else 'l')
+        if 'ms_total' in out and case.get('eq_mode') == 'rel':
+            ms_ok = ms_ok and out['ms_total'] == case['feed']      # the caller's multi_stream holds the feed, nothing else
+        return (f'(eqres_eqb (lle_ms (rho_stub {qlist(MWS)} {qlist([F(m) / F(r) for m, r in zip(MWS, RHOS)])}) '
+                f'{eq_term(case, "L")} {cnat(extra)} {ms0} {cnat(k)} {qlist(case["feed"])} '
                 f'{qlist(case["top0"])} {qlist(case["bot0"])} {cbool(case["top_chemical"] is not None)} {q(case["eff"])}) '
                 f'{qlist(out["top"])} {qlist(out["bot"])} {coerr(out["err"])} '
-                f'&& {cbool(ms_ok and saw_feed and out["feed_after"] == case["feed"])})')
+                f'&& {seen_ok} && {cbool(ms_ok and out["feed_after"] == case["feed"])})')
     if fn == 'vle':
-        saw_feed = bool(out['seen']) and [sum(c) for c in zip(*out['seen'][0][1])] == case['feed']
-        return (f'(pair_approxb (vle_wrap (fun _ => ({qlist(case["g"])}, {qlist(case["l"])})) {qlist(case["feed"])}) '
-                f'{qlist(out["top"])} {qlist(out["bot"])} '
-                f'&& {cbool(out["err"] is None and out["phases"] == ["g", "l"] and saw_feed and out["feed_after"] == case["feed"])})')
+        ms0, k, seen_ok = ms_model(case, out, case['feed_phase'])
+        return (f'(pair_approxb (vle_ms {eq_term(case, "g")} {ms0} {cnat(k)} {qlist(case["feed"])}) '
+                f'{qlist(out["top"])} {qlist(out["bot"])} && {seen_ok} '
+                f'&& {cbool(out["err"] is None and out["phases"] == ["g", "l"] and out["feed_after"] == case["feed"])})')
     if fn == 'phase_split':
         exp = f'(Err {cerr(out["err"])})' if out['err'] else f'(Ok {clist(out["outs"], qlist)})'
         ok = True
@@ -830,6 +947,12 @@ def coq_case(case, out):
             ok = out['out_phases'] == out['order']          # each phase in its own outlet, labelled
         else:
             ok = out['outs'] == case['outs0']               # nothing written
+        if case['multi']:
+            rows4 = [dict(zip(case['phases'], case['rows'])).get(p, [0.] * N) for p in 'Lgls']
+            expp = (f'(Err {cerr(out["err"])})' if out['err'] else
+                    f'(Ok ({clist(out["outs"], qlist)}, {clist(out["rows"], qlist)}))')
+            return (f'(pairvl_approxb (phase_split_hist {cnat(N)} {present_list(case["phases"])} {clist(rows4, qlist)} '
+                    f'{clist(case.get("hist", []), mop_term)} {clist(case["outs0"], qlist)}) {expp} && {cbool(ok)})')
         return (f'(resvl_approxb (phase_split {clist(out["rows"], qlist)} {clist(case["outs0"], qlist)}) {exp} '
                 f'&& {cbool(ok and sorted(out["order"]) == sorted(case["phases"]))})')
     if fn == 'splits':
@@ -918,6 +1041,12 @@ def classify(case, out):
         ks.append('kinds:' + case['kinds'])
         ks.append('strict:' + str(case['strict']))
         ks.append('ID:' + str(case['ID']))
+    if fn in ('lle', 'vle'):
+        ks.append('eq_stub:' + case.get('eq_mode', 'abs'))
+        if case.get('ms0'):
+            ks.append('multi_stream:reused')
+    if fn == 'phase_split' and case.get('hist'):
+        ks.append('history:' + '+'.join(sorted({o[0] for o in case['hist']})))
     if fn == 'lle':
         ks.append('ms:' + str(case['ms']))
         ks.append('eff<1' if case['eff'] < 1 else 'eff>=1')
